@@ -30,7 +30,8 @@ EXPLANATION = ("quick: ALL sets of 1..2 reactions over the 90 reactions between 
                "up to species permutation (~4.5e4).  Plus seeded random networks <= 6-7 species x 6 reactions, mass-balanced random networks, "
                "textbook networks with known deficiency (A+B<->C: 0, Edelstein: 1, futile cycles: 1 and 2, Horn-Jackson: 2, ...), bridged-cycle networks (>= 5 reactions, "
                "one-way / two-way bridges), networks with 10-13 species and 10-12 reactions (multi-digit names / ids), call histories on ONE analyzer object with the "
-               "hypergraph edited between the analyses (every answer compared with a fresh analyzer), and the regression corpus.  "
+               "hypergraph edited between the analyses (every answer compared with a fresh analyzer), disjoint multi-class networks, ill-conditioned stoichiometry "
+               "(multi-digit coefficients, near-singular and exactly singular blocks), and the regression corpus.  "
                "Theorems (all inputs, closed under the global context): complexes = the distinct reactant/product vectors (NoDup, complete, vectors equal iff "
                "multisets equal), complex-graph arcs, linkage classes = connected components (partition, same class iff undirected path; fuel suffices), weak "
                "reversibility <-> every class strongly connected <-> every arc has a return path, deficiency = n - l - exact (MathComp) rank, "
@@ -486,6 +487,8 @@ def gen_cases(tier, rng):
     cases += ADV.bridged_cycles(rng, nrand=30 if tier == "quick" else 300)
     cases += ADV.big_nets(rng, count=40 if tier == "quick" else 400)
     cases += ADV.histories(rng, nrand=50 if tier == "quick" else 500)
+    cases += ADV.multi_class(rng, count=24 if tier == "quick" else 240)
+    cases += ADV.ill_conditioned(rng, count=24 if tier == "quick" else 240)
     cases.append(dict(kind="degenerate", rxns=[], iso=[], view="hyper"))
     import os
     lim = os.environ.get("VERIF_C19_SAMPLE")          # development aid: a seeded subsample of the tier's population
